@@ -118,3 +118,14 @@ func VerifFastLink(p *Peer) {
 	p.download.Start()
 	p.download.Accumulate(256 << 20)
 }
+
+// VerifYield, when non-nil, is called at the points where the peer's
+// goroutine is about to touch state it shares with the torrent; a harness
+// may block there in order to impose an interleaving.
+var VerifYield func(point string)
+
+func verifYield(point string) {
+	if f := VerifYield; f != nil {
+		f(point)
+	}
+}
